@@ -316,7 +316,9 @@ class Interp:
             if isinstance(v, (float, Fraction)): return f2bits(v)
             if isinstance(v, tuple): return 0 if v == NULL else v
             if isinstance(v, FB): return SV(v.e)
-            if isinstance(v, RV): raise Unsupported('integer view of a symbolic real')
+            if isinstance(v, RV):
+                if ty == 'i64': return v      # a real moved through an integer register (memcpy lowered to load/store i64)
+                raise Unsupported('integer view of a symbolic real')
             return v
         return v
     def store(self, p, v, size):
@@ -586,10 +588,11 @@ class Interp:
                         o = ins[2]; v = vals[o[1]] if o[0] else o[1]; ty = ins[3]; oty = ins[4]
                         if ty == oty or (ty == 'ptr' and oty == 'ptr'): vals[ins[1]] = v
                         elif ty == 'f64' and oty == 'i64':
-                            vals[ins[1]] = self.mkfloat(bits2f(v)) if isinstance(v, int) else FB(to_bv(v, 64))
+                            vals[ins[1]] = self.mkfloat(bits2f(v)) if isinstance(v, int) else (v if isinstance(v, RV) else FB(to_bv(v, 64)))
                         elif ty == 'i64' and oty == 'f64':
                             if isinstance(v, (float, Fraction)): vals[ins[1]] = f2bits(v)
                             elif isinstance(v, FB): vals[ins[1]] = SV(v.e)
+                            elif isinstance(v, RV): vals[ins[1]] = v
                             else: raise Unsupported('bit pattern of a symbolic real')
                         elif ty[0] == '<' or oty[0] == '<': raise Unsupported('vector bitcast')
                         else: raise Unsupported('bitcast %s->%s' % (oty, ty))
